@@ -58,6 +58,8 @@ def collect(tier, seed, res, oracles):
                 case['script'] = [tuple(t) for t in case['script']]
                 out, d = pc.run(case)
                 handle(case, out, d, 'corpus')
+    for case, out, d in pc.directed_cases():
+        handle(case, out, d, 'directed')
     for (nw, ni, extra, md, retry) in (QUICK_DFS if tier == 'quick' else THOROUGH_DFS):
         lim = 40000 if tier == 'quick' else 400000
         for case, out, d in pc.dfs(nw, ni, extra, md, retry=retry, limit=lim):
@@ -80,7 +82,7 @@ def _slow_square(x):
     return x * x
 
 
-def graceful_close_probe(res, tier):
+def graceful_close_probe(res, tier, prop='C07'):
     """outside the scripted model: a REAL pool in which a worker is closed gracefully (worker.close() from the worker
     callback) while it still has an accepted input to answer (extra pending 1).  It refuses further input but is not
     dead: the run must still end with exactly one result per input, or PoolError - never an internal error."""
@@ -119,6 +121,8 @@ def graceful_close_probe(res, tier):
                 why = f'Pool.run ended with an internal error: {outcome["error"]}'
             elif 'results' in outcome and collections.Counter(outcome['results']) != collections.Counter(x * x for x in range(n)):
                 why = f'Pool.run returned {sorted(outcome["results"])} for inputs 0..{n - 1}: not exactly one result per input'
+            if prop == 'C08' and not why and 'poolerror' in outcome:
+                why = 'Pool.run raised PoolError although worker w1 was never closed, kept working the whole time and retry is enabled'
             if why:
                 res.violation(dict(real_pool=kind.name, scenario='worker 0 closed gracefully from the callback of its first result, extra pending 1', inputs=n, domain=None), why,
                               finding_matcher=known_matcher)
@@ -147,8 +151,7 @@ def main(tier, seed, replay=None, prop=PROP, oracles=(pc.oracle_c07,), props_fil
             print('oracle:', orc(c, out, d))
         return 0
     terms, keep = collect(tier, seed, res, oracles)
-    if prop == 'C07':
-        graceful_close_probe(res, tier)
+    graceful_close_probe(res, tier, prop)
     bad, err = core.coq_eval_cases(prop, HEADER, terms, per_file=400)
     res.traces_validated = len(terms) - len(bad)
     if err:
